@@ -7,7 +7,8 @@ windows that the monitor demands (the window ends inside the observation and the
 processed: `Link.lastPtrIs`), a refresh opportunity (`Link.refreshOpp`).
 
 What is assumed of a browser (`RefreshRun`) is stated about the same kind of history as `BrowserRun`:
-* `names` — every pointer record of an instance of the browsed type in the history names that type (`OneName`);
+* `names` — every pointer record of an instance of the browsed type (that the host is delivered) in the history names that type
+  (`OneName`);
 * `learned` — how a PTR the host processes reaches the scheduler (`Learned`): as a `ptr` block at the instant of the delivery (created
   then, lifetime the effective TTL) if the browser existed, or — the record of a warm cache — as a `ptr` block before `start` carrying
   the original creation time; and later blocks that touch the instance come with a later PTR(`s`) delivery (in trace order) or are the
@@ -53,7 +54,7 @@ structure RefreshRun (tr : Link.Trace) (endT : Int) (tb : Int) (b : Link.Br) : P
     Sched2.exec2 (browserCfg types 10000 none) {} tS (pre0 ++ (tb, .start d) :: evs) = .ok (s', outs) ∧
     endT < lastTime tb evs ∧
     -- names
-    (∀ s : Link.Svc, s.ty = b.ty → OneName (aliasOf s) n (pre0 ++ evs)) ∧
+    (∀ s : Link.Svc, s.ty = b.ty → s ∈ Link.dlvSvcs tr → OneName (aliasOf s) n (pre0 ++ evs)) ∧
     -- learned
     (∀ (s : Link.Svc) (x : Link.DlvE) (l1 l2 : List Link.DlvE) (ttl : Nat) (full : Bool), s.ty = b.ty →
       Link.dlvs tr = l1 ++ x :: l2 → x.h = b.host → Link.ptrOf s x.items = some (ttl, full) → 0 < ttl →
@@ -152,6 +153,10 @@ theorem k3bAt_of_refreshRun {tr : Link.Trace} {endT tb : Int} {b : Link.Br} (hru
   intro hprem
   obtain ⟨hend, hlast⟩ := hprem
   obtain ⟨l1, l2, hd, _, _, hl2⟩ := Link.lastPtrIs_split hlast
+  have hsmem : s ∈ Link.dlvSvcs tr := by
+    unfold Link.dlvSvcs
+    rw [List.mem_flatMap]
+    exact ⟨x, by rw [hd]; simp, Link.ptrOf_mem hp⟩
   have hd120 : tb + 120 + startupOffset 0 < lastTime tb evs → d ≤ 120 :=
     fun h => (startup_send_mem types 10000 tS pre0 tb d evs s' outs hidle hact hex 0 (by omega) h).2.1
   by_cases hcase : tb + 120 + 14000 + 10000 ≤ x.t + 750 * (e : Int)
@@ -169,7 +174,7 @@ theorem k3bAt_of_refreshRun {tr : Link.Trace} {endT tb : Int} {b : Link.Br} (hru
     | false =>
       simp only [if_false, Bool.false_eq_true] at hend hl2 ⊢
       obtain ⟨tn, htn, hs1, _⟩ := learned_sends types n tS pre0 tb d evs s' outs (aliasOf s) e x _ (x.t + 750 * e + 20000)
-        hidle hact hex (hnames s hty) hlrn hd120' hcase he (by omega) (by omega) (by omega)
+        hidle hact hex (hnames s hty hsmem) hlrn hd120' hcase he (by omega) (by omega) (by omega)
         (by
           intro τ hτ hsup
           rcases hsup with ⟨y, hy, hyh, hyp, hyt⟩ | hexp
@@ -181,7 +186,7 @@ theorem k3bAt_of_refreshRun {tr : Link.Trace} {endT tb : Int} {b : Link.Br} (hru
     | true =>
       simp only [if_true] at hend hl2 ⊢
       obtain ⟨tn, htn, _, hs2⟩ := learned_sends types n tS pre0 tb d evs s' outs (aliasOf s) e x _ (x.t + 850 * e + 30000)
-        hidle hact hex (hnames s hty) hlrn hd120' hcase he (by omega) (by omega) (by omega)
+        hidle hact hex (hnames s hty hsmem) hlrn hd120' hcase he (by omega) (by omega) (by omega)
         (by
           intro τ hτ hsup
           rcases hsup with ⟨y, hy, hyh, hyp, hyt⟩ | hexp
